@@ -95,6 +95,11 @@ def run(tier, seed):
         for ti, tg in enumerate(tags):
             for j, lf in enumerate(forms + [[90], [0x81, 90], [0x88, 0, 0, 0, 0, 0, 0, 0, 90], [0x89] + [0xff] * 9, [0x84, 0x7f, 0xff, 0xff, 0xff]]):
                 plans.append({"id": "tag%d-%d" % (ti, j), "stage": "cresp", "layer": "ber", "faults": [{"op": "trunc", "at": 0}, {"op": "append", "bytes": tg + lf + [(7 * i) % 256 for i in range(90)]}], "uid": 1004})
+                # ... and followed by zero bytes (end-of-contents octets: whatever a scanner that lost its place takes for
+                # the length, what follows still looks like well-formed elements to it), even and odd counts
+                if len(lf) >= 5:
+                    for nz in (93, 200, 201, 1000):
+                        plans.append({"id": "tagz%d-%d-%d" % (ti, j, nz), "stage": "cresp", "layer": "ber", "faults": [{"op": "trunc", "at": 0}, {"op": "append", "bytes": tg + lf + [0] * nz}], "uid": 1004})
         # exponential work: k nested indefinite-length elements for k below the depth limit (a reader that walks both the
         # nested content and the same bytes again as siblings doubles its work at every level)
         for k2 in (16, 24, 28, 32, 40, 48, 56, 60, 63, 64):
